@@ -6,13 +6,6 @@ Require Import Pyrefact.NamingModel Pyrefact.RenameModel.
 Definition pair_eqb (a b : nat * ident) : bool := Nat.eqb (fst a) (fst b) && text_eqb (snd a) (snd b).
 Definition subset (a b : list (nat * ident)) : bool := forallb (fun x => existsb (pair_eqb x) b) a.
 
-(* well-formedness of the abstraction (the hypotheses of the theorems in RenameProofs.v) *)
-Fixpoint nodup_nat (l : list nat) : bool :=
-  match l with [] => true | x :: t => negb (existsb (Nat.eqb x) t) && nodup_nat t end.
-Definition wf_modl (m : modl) : bool :=
-  nodup_nat (map o_id (occs m) ++ map d_id (defs m)) && nodup_nat (map d_scope (defs m))
-  && forallb (fun d => negb (Nat.eqb (d_scope d) 0)) (defs m).
-
 (* case = (preserve, module abstraction, what the implementation yielded) *)
 Definition align_case_ok (c : list ident * modl * list (nat * ident)) : bool :=
   let '(preserve, m, want) := c in
